@@ -168,7 +168,7 @@ def gen_spec(rng: random.Random, kind: str, big: bool = False, fmt=None):
              "trans": [rf32(rng) for _ in range(3)], "flag": rng.choice([0, 1]),
              "tracks": [{"label": rlabel(rng), "frames": rframes(rng, rmask(rng, n), 3)} for _ in range(nt)]}
         if fm == 1:
-            nl = rng.choice([0, 0, 1, 2, 3, 6, 31])
+            nl = rng.choice([0, 0, 1, 2, 3, 6, 31, 32, 33, 40, 100])
             hi = 2 ** 32 - 1
             s["links"] = [[rng.randint(0, max(nt, 1)) if rng.random() < 0.8 else rng.randint(0, hi),
                            rng.randint(0, max(nt, 1)) if rng.random() < 0.8 else rng.randint(0, hi)]
